@@ -509,6 +509,9 @@ def plan_for(tier):
     plan.append((Cfg("Kround2[w0:0|w1:1|R|A:0,1]", [[0], [1]], [0, 1], after_flush=[0, 1], after_flush_by="process"), b, 0, None))
     plan.append((Cfg("Spar[P:1,0|[]]", [], [0, 1], sequential=True, parent_ids=[1, 0], after_flush=[1]), 0, 0, None))
     plan.append((Cfg("Kpar[P:0|w0:1|R]", [[1]], [0, 1, 0], parent_ids=[0], after_flush=[0]), b, 0, None))
+    # the parent has written (and closed) before it forks TWO writers: they must not both append to the parent's file
+    plan.append((Cfg("Kpar2[P:0|w0:1|w1:2|R]", [[1], [2]], [1, 2, 0], parent_ids=[0]), b, 0, None))
+    plan.append((Cfg("Spar2[P:0|[1,3],[2]]", [[1, 3], [2]], [0, 1, 2, 3], sequential=True, parent_ids=[0]), 0, 0, None))
     return plan, grid
 
 
